@@ -142,10 +142,14 @@ type Case struct {
 	// ZoneOff: the server's local zone, seconds east of UTC (cron expressions are matched against
 	// local wall-clock fields by the live ticker and must be by the historical list as well)
 	ZoneOff int `json:"zone_off,omitempty"`
+	// Sib: a second query node of the batch task beside the one under test: "flux-first" /
+	// "flux-last" (a queryFlux node before / after it in the script), "ql-first" / "ql-last" (an
+	// InfluxQL query on a declared pair). The db/rp check is per task: it must look at every node.
+	Sib string `json:"sib,omitempty"`
 }
 
 const rule = "rapid: InfluxQL SELECT (fields x sources x WHERE tree depth<=4 over AND/OR/parens, tag/field/arith/regex comparisons, user time predicates) x " +
-	"period/every|cron/offset/align/groupBy/fill/alignGroup x declared dbrps and FROM clause (declared pair | undeclared pair | declared database, other or omitted retention policy | no database | subquery of depth 1-2 over such sources, alone or beside a measurement) x span [start,stop] with generated phase; " +
+	"period/every|cron/offset/align/groupBy/fill/alignGroup x declared dbrps and FROM clause (declared pair | undeclared pair | declared database, other or omitted retention policy | no database | subquery of depth 1-2 over such sources, alone or beside a measurement) x span [start,stop] with generated phase x optionally a sibling query node (queryFlux, or InfluxQL on a declared pair) before or after it in the script; " +
 	"non-trivial = the WHERE tree has an OR at its top level or a user time predicate (and the task issues >= 1 query); distinct by case hash"
 
 // ------------------------------------------------------------------ reference schedule
@@ -491,6 +495,7 @@ func gen(rec *kit.Rec) func(t *rapid.T) Case {
 			c.Every = genDur(t, "every", []string{"ms", "s", "s", "m", "h", "u"})
 			c.Align = rapid.Bool().Draw(t, "align")
 		}
+		c.Sib = rapid.SampledFrom([]string{"", "", "", "flux-first", "flux-last", "ql-first", "ql-last"}).Draw(t, "sibling")
 		c.Period = genDur(t, "period", []string{"ms", "s", "s", "m", "h", "d"})
 		if wpick(t, "period0", 24, 1) == 1 {
 			c.Period.K = 0
@@ -676,12 +681,32 @@ func (c Case) script() string {
 	// the query goes into a triple-quoted TICKscript string (no escaping inside); the trailing
 	// blank keeps a closing quote of the statement away from the delimiter
 	s := "batch\n    |query('''" + c.userQuery() + " ''')\n"
+	if c.Sib != "" {
+		s = "var b = batch\nb\n    |query('''" + c.userQuery() + " ''')\n"
+	}
 	for _, i := range c.PropOrder {
 		if props[i] != "" {
 			s += "        " + props[i] + "\n"
 		}
 	}
-	return s + "    |log().prefix('S')\n"
+	s += "    |log().prefix('S')\n"
+	// the sibling node is marked by its cluster name (BatchQueries carries it)
+	sib := ""
+	switch {
+	case strings.HasPrefix(c.Sib, "flux"):
+		sib = "b\n    |queryFlux('from(bucket: \"x\") |> range(start: -1m)')\n        .period(1h)\n        .every(1h)\n        .cluster('sibling')\n    |log().prefix('X')\n"
+	case strings.HasPrefix(c.Sib, "ql") && len(c.Declared) > 0:
+		d := c.Declared[0]
+		sib = "b\n    |query('SELECT v FROM " + influxql.QuoteIdent(d.DB) + "." + influxql.QuoteIdent(d.RP) + ".sib')\n        .period(1h)\n        .every(1h)\n        .cluster('sibling')\n    |log().prefix('X')\n"
+	}
+	switch {
+	case sib == "":
+	case strings.HasSuffix(c.Sib, "first"):
+		s = strings.Replace(s, "var b = batch\n", "var b = batch\n"+sib, 1)
+	default:
+		s += sib
+	}
+	return s
 }
 
 func (c Case) timeDim() *Dim {
@@ -1216,8 +1241,19 @@ func run(c Case, cc *kit.Case) {
 		cc.Fail("dbrp/declared-rejected", "declared %v, query %q: BatchQueries failed: %v", c.Declared, userQ, qerr)
 		return
 	}
+	if c.Sib != "" && len(bqs) == 2 {
+		// drop the sibling node's list (marked by its cluster name)
+		cc.Label("sibling-query-node:" + c.Sib)
+		var own []kapacitor.BatchQueries
+		for _, bq := range bqs {
+			if bq.Cluster != "sibling" {
+				own = append(own, bq)
+			}
+		}
+		bqs = own
+	}
 	if len(bqs) != 1 {
-		cc.Fail("query/list-count", "one query node, %d query lists", len(bqs))
+		cc.Fail("query/list-count", "one query node under test, %d query lists", len(bqs))
 		return
 	}
 	qs := bqs[0].Queries
@@ -1293,6 +1329,15 @@ func run(c Case, cc *kit.Case) {
 		}
 		// a second call yields the same list (the first call left nothing behind)
 		again, err := et.BatchQueries(start, stop)
+		if c.Sib != "" && err == nil && len(again) == 2 {
+			var own []kapacitor.BatchQueries
+			for _, bq := range again {
+				if bq.Cluster != "sibling" {
+					own = append(own, bq)
+				}
+			}
+			again = own
+		}
 		if err != nil || len(again) != 1 || len(again[0].Queries) != len(qs) {
 			cc.Fail("query/not-repeatable", "%s\nsecond BatchQueries call: err=%v", script, err)
 			return
